@@ -56,7 +56,7 @@ Print Assumptions C12_sd_not_array_check.
 Theorem C12_unsupported_alg_verifier :
   forall O token kbpol jwt ds kb hdr claims,
     sd_jwt_parts_m token = Val (jwt, ds, kb) -> o_jwt O jwt = Val (hdr, claims) ->
-    (forall a, jget "_sd_alg" claims = JStr a -> parse_halg a = None) ->
+    jhas "_sd_alg" claims = true -> (forall a, jget "_sd_alg" claims = JStr a -> parse_halg a = None) ->
     verifier_verify O token kbpol = Fail.
 Proof. exact verifier_bad_alg. Qed.
 Print Assumptions C12_unsupported_alg_verifier.
@@ -64,7 +64,7 @@ Print Assumptions C12_unsupported_alg_verifier.
 Theorem C12_unsupported_alg_holder :
   forall O token jwt ds hdr claims,
     sd_jwt_parts_m token = Val (jwt, ds, None) -> o_jwt O jwt = Val (hdr, claims) ->
-    (forall a, jget "_sd_alg" claims = JStr a -> parse_halg a = None) ->
+    jhas "_sd_alg" claims = true -> (forall a, jget "_sd_alg" claims = JStr a -> parse_halg a = None) ->
     holder_verify O token = Fail.
 Proof. exact holder_bad_alg. Qed.
 Print Assumptions C12_unsupported_alg_holder.
